@@ -160,6 +160,15 @@ def link_scenarios(ctx):
                                     geometry(transport, fb, cb, rng.choice([x for x in fs if x != fb]))],
                             "f": [fa, fb], "lens": lens, "pace": rng.choice(["burst", "paced"]),
                             "max_delay": rng.choice([0.0, 0.002, 0.05])})
+    # another link of the sending device is disconnected (by either side) while its fragments wait for controller
+    # buffers: the disconnection makes the host go over its queues; order and content of what waits must not change
+    for transport in ("le", "bredr"):
+        for side in (0, 1):
+            for f, count in ((27, 1), (27, 2), (64, 2)) if ctx.quick else ((27, 1), (27, 2), (28, 3), (64, 2), (251, 1), (251, 3)):
+                out.append({"transport": transport, "seed": rng.randrange(1 << 30), "central": 0,
+                            "cfg": [geometry(transport, f, count, 1021), geometry(transport, 1021, 64, 27)],
+                            "f": [f, 1021], "lens": [[5 * f + 3, 2 * f, 7 * f - 1, 1], [3]], "pace": "burst", "shuffle": False,
+                            "max_delay": rng.choice([0.0, 0.002]), "bystander": {"side": side, "after": rng.choice([0.0, 0.001, 0.01])}})
     # LE over the shared BR/EDR pool: no dedicated LE buffers (length 0, or count 0)
     for k, (fa, fb) in enumerate([(64, 27), (1021, 251)] if ctx.quick else [(27, 64), (64, 27), (251, 1021), (1021, 251), (65535, 28), (28, 65535)]):
         cfgs = []
